@@ -29,6 +29,14 @@ def programs(tier, rnd: random.Random):
         for ctx in ("{ %s }", "{ RdV = RsV; %s }", "{ %s ReV = RtV; }", "{ if (RsV) { %s } }", "{ for (i = 0; i < 2; i++) { %s } }",
                     "{ if (RsV) { ReV = 1; } else { %s } }", "{ int32_t a = RsV; a++; %s }"):
             progs.append(ctx % u)
+    # calls of UNKNOWN functions as statements and as values; names: every substring of the routine name the transformer special-cases
+    # ("fatal" is translated to nothing on purpose), single letters, names that contain it
+    special = "fatal"
+    names = sorted({special[i:j] for i in range(len(special)) for j in range(i + 1, len(special) + 1)} - {special}) + \
+        ["g", "q", "z", "xfatal", "fatal_error", "fatals", "Fatal", "trap2", "clz3", "sizeo", "foo"]
+    for nm in names:
+        for ctx in ("{ %s(RsV); RdV = 1; }", "{ if (RsV) { %s(RsV, 1); } RdV = 1; }", "{ for (i = 0; i < 2; i++) { %s(i); } }", "{ RdV = %s(RsV); }"):
+            progs.append(ctx % nm)
     # chained assignments (each member is an assignment whose VALUE is used): all members must take effect, or the chain is rejected
     for ch in ("RdV = ReV = RsV;", "RdV = ReV = RxV = RsV;", "RdV = ReV = RxV = RyV = 0;", "int32_t a; int32_t b; a = b = RdV = RsV;",
                "int32_t i = RsV; RdV = ReV = i++;", "RdV = ReV = clz32(RsV);", "RdV = (ReV = RsV) + 1;", "RdV = ReV += RsV;"):
